@@ -111,6 +111,54 @@ CHECKS = {
             "the probe's driver mirrors main.rs; driver disagreements are inconclusive; linking ignores unresolved externs of snippets",
             "runtime monitoring: cross-checked observations (hooked library run vs. CLI process) of each compilation",
             "probe+cli", "4/C07"),
+    "C06": ("exploration",
+            "random UTF-8, token soups, nesting families to depth 200, byte/token mutations of the corpus (examples, core, parser fixtures, test snippets) and "
+            "semantic near-valid mutants, alone and together with core, are each compiled by one real CLI process under RLIMIT_CPU/AS; the monitor sees exit "
+            "status, signal, panic/verifier/internal-error text, CPU budget and whether an object file exists; allowed outcomes are exit 0 + object or exit 1 + "
+            "error lines. Known crash sites are pinned (known_findings.json) and every other crash site is a violation.",
+            "'bounded time' = 20 s CPU for inputs <= 64 KiB, re-run once alone before it counts; hangs of inputs containing comptime code are inconclusive",
+            "runtime monitoring: process-level crash/hang monitor (exit status, signal, internal-error text, CPU budget) over generated and mutated inputs",
+            "cli", "4/C06"),
+    "C13": ("exploration",
+            "variables of nominal types (distinct wrappers incl. distinct of distinct over 15 primitive bases, variants of two enums with identical payloads, "
+            "structurally identical named structs, distinct arrays) are used where another nominal type or the own underlying type is expected (annotation, "
+            "argument, tail/explicit return, assignment, binary operands in both orders); each case is one program compiled by the real CLI and must be rejected "
+            "with a mismatch naming both types; positive cases (same type, literal into distinct, variant into own enum) must be accepted; casts "
+            "distinct<->underlying are run and the value compared.",
+            "a value of the underlying type flowing into its distinct wrapper is not constrained by the statement and not judged; see evidence assumptions",
+            "runtime monitoring: per-case accept/reject observation of the real checker against a nominal-typing model + value oracle on executed casts",
+            "cli", "4/C13"),
+    "C14": ("exploration",
+            "assignment targets root step* (<= 3 steps; roots: ::/:= locals, parameters, globals, locals/params holding ^X / ^mut X initialised in several ways; "
+            "steps: .field, [i], ^, (), #unwrap) with =, the ten compound operators, ^mut path and ^path; expected rejects are compiled one per file, expected "
+            "accepts are run: the written location is read back through the target path and through an alias pointer, and every i64/pointer leaf of every object "
+            "is dumped and compared with a python memory model, so a lost or misplaced write is observed.",
+            "the pointer TYPE decides mutability (statement: 'through an immutable pointer'); slices/any/raw pointers are outside the alphabet",
+            "runtime monitoring: accept/reject observation against a path-mutability model + full memory-dump oracle on the executed program",
+            "cli", "4/C14"),
+    "C15": ("exploration",
+            "expressions of every kind of the quantifier (literal, ::/:= locals, globals and chains, imported globals incl. chains through a third file with decoys, "
+            "extern globals, comptime blocks, comptime/run-time parameters, arithmetic, call, member) are placed in every const position (array length in 4 "
+            "sub-positions, enum discriminant, comptime argument, type annotation) under every declaration layout; const cases must be accepted and the observed "
+            "array length / argument / tag byte / value must be what the expression denotes, non-const cases must be rejected with a not-const diagnostic.",
+            "const-ness by the README rule; a comptime block reading a :: local is 'either' (only an internal error counts)",
+            "runtime monitoring: per-case accept/reject observation + value oracle on the executed program (array length via .len and a store through the last index)",
+            "cli", "4/C15"),
+    "C21": ("exploration",
+            "corpus programs, near-valid mutants and generated multi-file trees (valid and invalid, with and without core) are each built three times by fresh CLI "
+            "processes (ASLR on) and three times by `probe pipeline` with the files supplied in permuted orders; object bytes and the full diagnostic output "
+            "are compared for equality.",
+            "timing fragments of the CLI output are masked; the CLI itself has no way to take a file list, so permuted orders go through the probe driver",
+            "runtime monitoring: repeated-execution differential monitor (object hash + diagnostics) across fresh processes and file orders",
+            "probe+cli", "4/C21"),
+    "C28": ("exploration",
+            "random directory trees (<= 6 local files in <= 3 directories + a generated module directory, three cwd/module layouts) with random relative imports "
+            "(.., ./, detours, cycles, self-imports, double spellings, #mod, imports into and out of the module dir, 25 kinds of invalid import) are compiled by "
+            "the real CLI; monitors: diagnostics and exit status, the per-file header of --verbose-hir (compiled once), the resolved path of every import, and "
+            "the program's output of a.b.id() along import paths; oracle: an import-resolution model written from the statement.",
+            "lexical path cleaning; no symlinked detours; absolute import paths are not generated",
+            "runtime monitoring: reference-model oracle over CLI diagnostics, parse-once event headers and the executed program's output",
+            "cli", "4/C28"),
     "C19": ("exploration",
             "random and fixed-core signatures (0-8 parameters, scalars and flat structs up to 64 bytes covering INTEGER/SSE/MEMORY classes, register "
             "exhaustion, sret) are exercised in both directions (capy calls extern C; C calls a capy function pointer) against C code compiled by the host "
